@@ -161,9 +161,12 @@ where
                                 co.yield_(None);
                                 break;
                             } else {
+                                // `current` holds only ASCII digits: an empty string is 0,
+                                // a number too long for any integer saturates like the rest.
                                 let mut current_param = match current.parse::<u64>() {
                                     Ok(val) => val,
-                                    _ => 0,
+                                    _ if current.is_empty() => 0,
+                                    _ => u64::MAX,
                                 };
                                 current_param = u64::min(current_param, 9999);
                                 params.push(current_param as u32);
@@ -288,9 +291,12 @@ where
                                 co.yield_(None);
                                 break;
                             } else {
+                                // `current` holds only ASCII digits: an empty string is 0,
+                                // a number too long for any integer saturates like the rest.
                                 let mut current_param = match current.parse::<u64>() {
                                     Ok(val) => val,
-                                    _ => 0,
+                                    _ if current.is_empty() => 0,
+                                    _ => u64::MAX,
                                 };
                                 current_param = u64::min(current_param, 9999);
                                 params.push(current_param as u32);
